@@ -9,9 +9,13 @@ import (
 	"math/rand/v2"
 	"os"
 	"path/filepath"
+	"runtime"
 	"sort"
 	"strconv"
+	"strings"
 	"sync"
+	"sync/atomic"
+	"syscall"
 	"testing"
 	"time"
 )
@@ -154,11 +158,15 @@ func (r *Run) WantSample() bool {
 	return len(r.samples) < r.maxSamples
 }
 
-func (r *Run) Rule(s string)           { r.rule = s }
-func (r *Run) Assume(s ...string)      { r.assumptions = append(r.assumptions, s...) }
-func (r *Run) Exhaustive(b bool)       { r.exhaustive = &b }
-func (r *Run) Extra(k string, v any)   { r.mu.Lock(); r.extra[k] = v; r.mu.Unlock() }
-func (r *Run) Inconclusive(why string) { r.mu.Lock(); r.inconclusive = append(r.inconclusive, why); r.mu.Unlock() }
+func (r *Run) Rule(s string)         { r.rule = s }
+func (r *Run) Assume(s ...string)    { r.assumptions = append(r.assumptions, s...) }
+func (r *Run) Exhaustive(b bool)     { r.exhaustive = &b }
+func (r *Run) Extra(k string, v any) { r.mu.Lock(); r.extra[k] = v; r.mu.Unlock() }
+func (r *Run) Inconclusive(why string) {
+	r.mu.Lock()
+	r.inconclusive = append(r.inconclusive, why)
+	r.mu.Unlock()
+}
 
 func (r *Run) dir(env, def string) string {
 	if d := os.Getenv(env); d != "" {
@@ -336,4 +344,73 @@ func TempDir(t testing.TB) string {
 	}
 	t.Cleanup(func() { os.RemoveAll(d) })
 	return d
+}
+
+// SpinWatchdog must be started OUTSIDE any synctest bubble. The driver bumps
+// progress as it goes; when it has not moved for 15 s of wall time the
+// watchdog decides whether the process is spinning inside the code under test
+// (a goroutine whose stack contains frame, not parked in select/sleep/chan
+// receive, while the process burns > 0.8 s of CPU per second, in three
+// consecutive samples). That is a violation (a busy loop keeps a bubble from
+// ever becoming idle, so virtual time stops and nothing inside can notice);
+// anything else is inconclusive. Either way the process exits: a stuck bubble
+// cannot be torn down. The returned function stops the watchdog.
+func (r *Run) SpinWatchdog(progress *atomic.Int64, frame, key, msg string) (stop func()) {
+	done := make(chan struct{})
+	go func() {
+		last, lastChange := progress.Load(), time.Now()
+		for {
+			select {
+			case <-done:
+				return
+			case <-time.After(500 * time.Millisecond):
+			}
+			if p := progress.Load(); p != last {
+				last, lastChange = p, time.Now()
+				continue
+			}
+			if time.Since(lastChange) < 15*time.Second {
+				continue
+			}
+			cpu := func() time.Duration {
+				var ru syscall.Rusage
+				syscall.Getrusage(syscall.RUSAGE_SELF, &ru)
+				return time.Duration(ru.Utime.Nano() + ru.Stime.Nano())
+			}
+			spinning := 0
+			var dump string
+			for s := 0; s < 3; s++ {
+				c0 := cpu()
+				time.Sleep(time.Second)
+				c1 := cpu()
+				buf := make([]byte, 1<<20)
+				buf = buf[:runtime.Stack(buf, true)]
+				dump = string(buf)
+				inLoop := false
+				for _, g := range strings.Split(dump, "\n\n") {
+					if strings.Contains(g, frame) && !strings.Contains(g, "[select") && !strings.Contains(g, "[chan receive") && !strings.Contains(g, "[sleep") && !strings.Contains(g, "[sync.") {
+						inLoop = true
+					}
+				}
+				if c1-c0 > 800*time.Millisecond && inLoop {
+					spinning++
+				}
+			}
+			if progress.Load() != last {
+				last, lastChange = progress.Load(), time.Now()
+				continue
+			}
+			if spinning == 3 {
+				if len(dump) > 8000 {
+					dump = dump[:8000]
+				}
+				r.Violation(key, -1, msg+" (3 samples: >0.8 s CPU per second with the goroutine running in "+frame+")", map[string]any{"stacks": dump})
+			} else {
+				r.Inconclusive("the driver made no progress for 15 s but nothing is visibly spinning in " + frame)
+			}
+			fmt.Fprintln(os.Stderr, "watchdog: giving up on a stuck bubble")
+			os.Exit(3)
+		}
+	}()
+	return func() { close(done) }
 }
